@@ -577,9 +577,8 @@ def run(tier='quick', seed=0):
     tasks = [(n, cn, t, g) for n, (cn, t) in sorted(table.items()) for g in ('pristine', 'warmed')]
     ctx = mp.get_context('fork')
     all_obs = []
-    with ctx.Pool(processes=min(16, os.cpu_count() or 4), maxtasksperchild=1) as pool:
-        for obs in pool.imap_unordered(task, tasks, chunksize=1):
-            all_obs.extend(obs)
+    from ..par import collect
+    all_obs.extend(collect(task, tasks, 1, 600, lambda t, why: dict(oid=f'C04/worker/{t[0]}@{t[3]}', status='undecided', detail=why, level='proved', paths=0, witness=None, name=t[0], cname=t[1])))
     all_obs.extend(attr_call_obligations())
     n, cex = hyph_lemma(7 if tier == 'quick' else 9)
     all_obs.append(dict(oid='C04/lemma/replace_key_underline_with_hyphen', status='discharged' if cex is None else 'violated', level='bounded',
